@@ -181,6 +181,39 @@ func callerMemory(mod api.Module) api.Memory {
 	return nil
 }
 
+var churnSink [][]byte
+
+var churnModule = func() []byte {
+	m := &wenc.Module{}
+	m.Mems = []wenc.Limits{{Min: 1}}
+	m.Tables = []wenc.TableType{{Elem: wenc.FuncRef, Lim: wenc.Limits{Min: 8}}}
+	f := m.AddFunc(nil, []wenc.ValType{wenc.I32}, nil, (&wenc.Code{}).I32Const(7).End().B)
+	m.ExportFunc("f", f)
+	m.Elems = []wenc.Elem{{Offset: wenc.ConstI32(0), FuncIdx: []uint32{f, f, f}}}
+	return m.Encode()
+}()
+
+// gcWithChurn: two garbage collections with allocation churn and a couple of fresh instantiations in between,
+// so that memory of objects that are no longer referenced is actually reused.
+func (r *engineRun) gcWithChurn() {
+	runtime.GC()
+	churnSink = churnSink[:0]
+	for i := 0; i < 768; i++ { // ~3 MiB of page-sized objects
+		b := make([]byte, 4096)
+		b[i%4096] = byte(i)
+		churnSink = append(churnSink, b)
+	}
+	for i := 0; i < 2; i++ {
+		if mod, err := r.rt.InstantiateWithConfig(r.ctx, churnModule, wazero.NewModuleConfig().WithName("")); err == nil {
+			mod.ExportedFunction("f").Call(r.ctx)
+			mod.Close(r.ctx)
+		}
+	}
+	churnSink = nil
+	runtime.GC()
+	runtime.GC()
+}
+
 func (r *engineRun) close() { r.rt.Close(r.ctx) }
 
 func firstLine(s string) string {
@@ -198,13 +231,23 @@ func (r *engineRun) exec(sc *Scenario, st *Step) (o Obs) {
 	}()
 	switch st.Kind {
 	case "gc":
-		runtime.GC()
+		r.gcWithChurn()
 		return Obs{}
 	case "inst":
 		bin, ok := r.bins[st.Mod]
 		if !ok {
 			bin, _ = Build(sc.Mods[st.Mod])
 			r.bins[st.Mod] = bin
+		}
+		if st.ExpErr != "" {
+			// expected to fail: instantiate from bytes, so that nobody (not even this harness) holds the
+			// CompiledModule or anything else of the failed instance afterwards
+			mod, err := r.rt.InstantiateWithConfig(r.ctx, bin, wazero.NewModuleConfig().WithName(st.Inst))
+			if err != nil {
+				return Obs{Err: "instantiate:" + firstLine(err.Error())}
+			}
+			r.mods[st.Inst] = mod
+			return Obs{}
 		}
 		cm, ok := r.cms[st.Mod]
 		if !ok {
